@@ -128,6 +128,19 @@ def run(rep, tier):
     C13.stable_restored(rep, fb, 'R14.11')
     from . import C16
     C16.nil_is_null(rep, facts.FactBase(['src/uscxml/plugins/datamodel/lua/LuaDataModel.cpp']), 'R14.12')
+    # ---- R14.13 the session identity is part of the state
+    rep.rule('R14.13', 'a resumed session is the session that was saved: serialize() writes the session id, deserialize() adopts it before init() hands it to the data model and the i/o processors (the origin of queued events, a stored _sessionid or location would name a session that no longer exists)')
+    from .. import cfg as cfgm13
+    ser13 = fb.fn('uscxml::InterpreterImpl::serialize')
+    des13 = fb.fn('uscxml::InterpreterImpl::deserialize')
+    writes13 = any(y['k'] == 'MemberExpr' and y.get('ref', {}).get('name') == '_sessionId' for y in ser13.walk())
+    g13 = cfgm13.CFG(des13)
+    asg13 = [n for n in des13.walk() if n['k'] in ('CXXOperatorCallExpr', 'BinaryOperator') and n.get('op') == '=' and any(
+        y['k'] == 'MemberExpr' and y.get('ref', {}).get('name') == '_sessionId' for y in sub(n['c'][-2])) and n['id'] in g13.pos]
+    init13 = [n for n in des13.walk() if n.get('callee', {}).get('q') == 'uscxml::InterpreterImpl::init' and n['id'] in g13.pos]
+    before13 = bool(asg13) and bool(init13) and g13.can_reach(g13.pos[asg13[0]['id']], [init13[0]['id']]) is not None and g13.can_reach(g13.pos[init13[0]['id']], [asg13[0]['id']]) is None
+    rep.check(writes13 and before13, 'R14.13', 'InterpreterImpl|session id', (locstr(asg13[0]) if asg13 else des13.where()), 'serialize() writes the session id: %s; deserialize() adopts it before init(): %s%s' % (
+        writes13, before13, '' if writes13 and before13 else ' -- a reply to the origin of a restored queued event raises error.communication, a stored _sessionid no longer matches'))
 
     for wq, rq in PAIRS:
         w, r = fb.fn(wq), fb.fn(rq)
